@@ -733,7 +733,33 @@ def check_grid(ck, case, st, default_rule, model_jobs=None):
             ck.fail("coords_path", case, {"level": "grid", "path": "Grid.compute_face_areas(latlon=False)", "symptom": sym},
                     detail="face %d: lonlat=%r cartesian=%r" % (bad[0], a_ll[bad[0]], a_xyz[bad[0]]))
     except Exception as ex:
-        ck.fail("raises", case, dict(info0, call="compute_face_areas(latlon=False)"), detail=repr(ex))
+        # a node on a pole becomes the zero vector when z is dropped (1/sqrt(0) at a Lobatto end point):
+        # the same defect as the z_dropped finding if the function-level call on (x, y, 0) raises alike
+        # while the call on (x, y, z) does not
+        sym = "other"
+        try:
+            xyz = list(zip(g.node_x.values.tolist(), g.node_y.values.tolist(), g.node_z.values.tolist()))
+            same = False
+            for r in rows:
+                full_ok = True
+                try:
+                    impl_area([xyz[i][0] for i in r], [xyz[i][1] for i in r], [xyz[i][2] for i in r], rule[0], rule[1], "cartesian")
+                except Exception:
+                    full_ok = False
+                try:
+                    impl_area([xyz[i][0] for i in r], [xyz[i][1] for i in r], [0.0] * len(r), rule[0], rule[1], "cartesian")
+                except Exception as ex2:
+                    if type(ex2) is type(ex) and full_ok:
+                        same = True
+            if same:
+                sym = "z_dropped"
+        except Exception:
+            pass
+        if sym == "z_dropped":
+            ck.fail("coords_path", case, {"level": "grid", "path": "Grid.compute_face_areas(latlon=False)", "symptom": sym},
+                    detail="raises %r instead of returning the lon/lat areas" % (ex,))
+        else:
+            ck.fail("raises", case, dict(info0, call="compute_face_areas(latlon=False)"), detail=repr(ex))
         a_xyz = None
     # renumbering of nodes and faces, new starting corners: same areas
     try:
